@@ -24,6 +24,8 @@ AssocClauses(a) ==
   \o F(\E i \in 1..Len(a.pdus.fromServer) : a.pdus.maxClient # 0 /\ a.pdus.fromServer[i] > a.pdus.maxClient, "pdata-within-the-maximum-this-association-negotiated")
   \o F(\E i \in 1..Len(a.pdus.fromClient) : a.pdus.maxServer # 0 /\ a.pdus.fromClient[i] > a.pdus.maxServer, "pdata-within-the-maximum-this-association-negotiated")
   \* further operations on the association (C-FIND with large responses, C-MOVE progress): what went wrong, if anything
+  \* the Part-10 header of every instance this association's data was received into: its own instance, class, syntax
+  \o F(\E i \in 1..Len(a.headers) : a.headers[i].got # a.headers[i].want, "received-file-header-describes-this-associations-own-instance-class-and-syntax")
   \o F(~a.aborted /\ a.extras # <<>>, "other-operations-of-this-association-are-answered-on-it-with-its-own-data")
 (* g = [sent: Seq([client, inst]) by associations that did not abort, allSent, seen: Seq([client, inst]), threads: Seq(Seq(mid))] *)
 GlobalClauses(g) ==
